@@ -269,6 +269,26 @@ def handle (args : List String) : String :=
     match bytesOfHex rng, n.toNat? with
     | some rng, some n => showList ((List.range n).map fun k => (rng.drop (16 * k)).take 16)
     | _, _ => "bad-arg"
+  | ["closeid", secID, ids] =>
+    match bytesOfHex secID, (if ids == "nil" then some [] else bytesList ids) with
+    | some secID, some ids =>
+      match SEC.closeCheckID (some (encFor (some .rc4) 3 16 none |> fun e => { e with sec := { e.sec with ID := secID } })) ids with
+      | .ok _ => "ok"
+      | .error e => s!"err {e}"
+    | _, _ => "bad-arg"
+  | ["chain", d, a] =>
+    let kinds (s : String) : Option (List SEC.FilterKind) :=
+      if s == "-" then some [] else s.toList.mapM fun c =>
+        if c == 'I' then some SEC.FilterKind.cryptIdentity else if c == 'S' then some .cryptOther
+        else if c == 'F' then some .other else none
+    let showK (l : List SEC.FilterKind) : String :=
+      if l.isEmpty then "-" else String.ofList (l.map fun k => match k with | .cryptIdentity => 'I' | .cryptOther => 'S' | .other => 'F')
+    match kinds d, kinds a with
+    | some d, some a =>
+      match SEC.openStreamChain d a with
+      | .ok (ch, skip) => s!"ok {showK ch} skip={if skip then 1 else 0}"
+      | .error e => s!"err {e}"
+    | _, _ => "bad-arg"
   | ["decbytes", c, r, kb, key, num, gen, data] =>
     match cipherOf c, r.toNat?, kb.toNat?, optBytes key, num.toNat?, gen.toNat?, bytesOfHex data with
     | some c, some r, some kb, some key, some num, some gen, some data =>
